@@ -52,55 +52,55 @@ Proof.
     apply IH in H. destruct H as [extra H]. exists (ns ++ extra). rewrite H, E2, app_assoc. reflexivity.
 Qed.
 
-Lemma normal_pass_consistent c ps off dict st :
-  normal_pass c ps off dict = ROk st -> consistent st.
+Lemma normal_pass_consistent gate c ps off dict st :
+  normal_pass_g gate c ps off dict = ROk st -> consistent st.
 Proof.
-  unfold normal_pass. destruct (cw_add_all 0 (map node_len dict)) as [cw0|] eqn:E; [|discriminate].
+  unfold normal_pass_g. destruct (cw_add_all 0 (map node_len dict)) as [cw0|] eqn:E; [|discriminate].
   destruct (nth_error (c_cats c) off) as [cat|]; [|discriminate].
   assert (C0 : consistent (cw0, dict)).
   { unfold consistent. cbn [fst snd]. apply cw_add_all_zero in E. rewrite E. split.
     - intros [_ H]. destruct dict; [reflexivity|discriminate].
     - intros ->. auto. }
-  destruct (inter cat OF.oov_gate_mask).
+  destruct (inter cat gate).
   - intros H. injection H as <-. exact C0.
   - intros H. eapply provide_all_consistent; eauto.
 Qed.
 
 (* the dictionary nodes stay in front of the buffer *)
-Lemma normal_pass_keeps_dict c ps off dict st :
-  normal_pass c ps off dict = ROk st -> exists oov, snd st = dict ++ oov.
+Lemma normal_pass_keeps_dict gate c ps off dict st :
+  normal_pass_g gate c ps off dict = ROk st -> exists oov, snd st = dict ++ oov.
 Proof.
-  unfold normal_pass. destruct (cw_add_all 0 (map node_len dict)) as [cw0|]; [|discriminate].
+  unfold normal_pass_g. destruct (cw_add_all 0 (map node_len dict)) as [cw0|]; [|discriminate].
   destruct (nth_error (c_cats c) off) as [cat|]; [|discriminate].
-  destruct (inter cat OF.oov_gate_mask).
+  destruct (inter cat gate).
   - intros H. injection H as <-. exists []. cbn. now rewrite app_nil_r.
   - intros H. apply provide_all_extends in H. exact H.
 Qed.
 
 (* providers are skipped at a character of a gated class *)
-Lemma normal_pass_gated c ps off dict cat st :
-  nth_error (c_cats c) off = Some cat -> inter cat OF.oov_gate_mask = true ->
-  normal_pass c ps off dict = ROk st -> snd st = dict.
+Lemma normal_pass_gated gate c ps off dict cat st :
+  nth_error (c_cats c) off = Some cat -> inter cat gate = true ->
+  normal_pass_g gate c ps off dict = ROk st -> snd st = dict.
 Proof.
-  unfold normal_pass. intros -> ->. destruct (cw_add_all 0 (map node_len dict)); [|discriminate].
+  unfold normal_pass_g. intros -> ->. destruct (cw_add_all 0 (map node_len dict)); [|discriminate].
   intros H. injection H as <-. reflexivity.
 Qed.
 
 (* ---------- fallback exactly when nothing else was produced ---------- *)
-Theorem fallback_iff_nothing c ps off dict buf :
-  position_step c ps off dict = ROk buf ->
+Theorem fallback_iff_nothing_g gate fb c ps off dict buf :
+  position_step_g gate fb c ps off dict = ROk buf ->
   exists cw1 normal,
-    normal_pass c ps off dict = ROk (cw1, normal)
+    normal_pass_g gate c ps off dict = ROk (cw1, normal)
     /\ ((normal <> [] /\ buf = normal)
-        \/ (normal = [] /\ exists p extra, fallback_of ps = Some p /\ provide p c off 0 [] = ROk extra
+        \/ (normal = [] /\ exists p extra, fb = Some p /\ provide p c off 0 [] = ROk extra
                                            /\ extra <> [] /\ buf = extra)).
 Proof.
-  unfold position_step. destruct (normal_pass c ps off dict) as [[cw1 normal]| |] eqn:E; try discriminate.
-  pose proof (normal_pass_consistent _ _ _ _ _ E) as C. unfold consistent in C. cbn [fst snd] in *.
+  unfold position_step_g. destruct (normal_pass_g gate c ps off dict) as [[cw1 normal]| |] eqn:E; try discriminate.
+  pose proof (normal_pass_consistent _ _ _ _ _ _ E) as C. unfold consistent in C. cbn [fst snd] in *.
   intros H. exists cw1, normal. split; [reflexivity|].
   destruct (N.eqb_spec cw1 0) as [Z|NZ].
   - right. subst cw1. assert (normal = []) as -> by (apply C; reflexivity). split; [reflexivity|].
-    destruct (fallback_of ps) as [p|]; [|discriminate].
+    destruct fb as [p|]; [|discriminate].
     destruct (provide_oovs c off (0, []) p) as [st2| |] eqn:E2; try discriminate.
     pose proof (provide_oovs_consistent _ _ _ _ _ E2) as C2.
     apply provide_oovs_inv in E2. destruct E2 as [ns [P1 [P2 _]]]. cbn [fst snd app] in *.
@@ -114,23 +114,32 @@ Proof.
 Qed.
 
 (* a processed position is never left without a candidate (otherwise the analysis stops with an error) *)
-Theorem position_has_candidate c ps off dict buf :
-  position_step c ps off dict = ROk buf -> buf <> [].
+Theorem fallback_iff_nothing c ps off dict buf :
+  position_step c ps off dict = ROk buf ->
+  exists cw1 normal,
+    normal_pass c ps off dict = ROk (cw1, normal)
+    /\ ((normal <> [] /\ buf = normal)
+        \/ (normal = [] /\ exists p extra, fallback_of ps = Some p /\ provide p c off 0 [] = ROk extra
+                                           /\ extra <> [] /\ buf = extra)).
+Proof. apply fallback_iff_nothing_g. Qed.
+
+Theorem position_has_candidate gate fb c ps off dict buf :
+  position_step_g gate fb c ps off dict = ROk buf -> buf <> [].
 Proof.
-  intros H. apply fallback_iff_nothing in H. destruct H as [cw1 [normal [_ [[N ->]|[_ [p [extra [_ [_ [N ->]]]]]]]]]]; exact N.
+  intros H. apply fallback_iff_nothing_g in H. destruct H as [cw1 [normal [_ [[N ->]|[_ [p [extra [_ [_ [N ->]]]]]]]]]]; exact N.
 Qed.
 
-Lemma lattice_loop_candidates c ps : forall offs dict ends r,
-  lattice_loop c ps offs dict ends = ROk r -> Forall (fun x => x <> Some []) r.
+Lemma lattice_loop_candidates gate fb c ps : forall offs dict ends r,
+  lattice_loop_g gate fb c ps offs dict ends = ROk r -> Forall (fun x => x <> Some []) r.
 Proof.
   induction offs as [|off t IH]; intros dict ends r H.
   - cbn in H. injection H as <-. constructor.
-  - cbn [lattice_loop] in H. destruct (Nat.eqb off 0 || existsb (Nat.eqb off) ends).
-    + destruct (position_step c ps off (dict_filter c off (hd [] dict))) as [buf| |] eqn:E; try discriminate.
-      destruct (lattice_loop c ps t (tl dict) (map n_end buf ++ ends)) as [r'| |] eqn:E2; try discriminate.
+  - cbn [lattice_loop_g] in H. destruct (Nat.eqb off 0 || existsb (Nat.eqb off) ends).
+    + destruct (position_step_g gate fb c ps off (dict_filter c off (hd [] dict))) as [buf| |] eqn:E; try discriminate.
+      destruct (lattice_loop_g gate fb c ps t (tl dict) (map n_end buf ++ ends)) as [r'| |] eqn:E2; try discriminate.
       injection H as <-. constructor; [|eapply IH; eauto].
-      intros X. injection X as ->. exact (position_has_candidate _ _ _ _ _ E eq_refl).
-    + destruct (lattice_loop c ps t (tl dict) ends) as [r'| |] eqn:E2; try discriminate.
+      intros X. injection X as ->. exact (position_has_candidate _ _ _ _ _ _ _ E eq_refl).
+    + destruct (lattice_loop_g gate fb c ps t (tl dict) ends) as [r'| |] eqn:E2; try discriminate.
       injection H as <-. constructor; [discriminate|eapply IH; eauto].
 Qed.
 
@@ -190,8 +199,8 @@ Theorem simple_fallback_total c ps off dict o st :
   exists buf, position_step c ps off dict = ROk buf
               /\ (snd st = [] -> buf = [oov_node off (off + word_candidate_length (c_bows c) off) o]).
 Proof.
-  intros F Hoff E. pose proof (normal_pass_consistent _ _ _ _ _ E) as C.
-  unfold position_step. rewrite E, F. destruct st as [cw1 normal]. unfold consistent in C. cbn [fst snd] in *.
+  intros F Hoff E. pose proof (normal_pass_consistent _ _ _ _ _ _ E) as C.
+  unfold position_step, position_step_g. fold (normal_pass c ps off dict). rewrite E, F. destruct st as [cw1 normal]. unfold consistent in C. cbn [fst snd] in *.
   destruct (N.eqb_spec cw1 0) as [Z|NZ].
   - subst cw1. unfold provide_oovs. cbn [provide fst snd]. rewrite simple_provide_spec by exact Hoff.
     replace (0 =? 0) with true by reflexivity. cbn [map cw_add_all].
